@@ -733,11 +733,12 @@ class Builtins:
                 out = []
                 for s, ok in X.branch(st, z3.And(i.t >= -n, i.t < n)):
                     if ok:
-                        idx = z3.simplify(z3.If(i.t < 0, i.t + n, i.t))
-                        s.add_index(idx)
-                        if s.readlog is not None:
-                            s.readlog.append(("list", a.oid, idx))
-                        out.append(Res(s, o.get(idx)))
+                        for s2, nonneg in X.branch(s, i.t >= 0):
+                            idx = z3.simplify(i.t if nonneg else i.t + n)
+                            s2.add_index(idx)
+                            if s2.readlog is not None:
+                                s2.readlog.append(("list", a.oid, idx))
+                            out.append(Res(s2, o.get(idx)))
                     else:
                         out.extend(X.raise_(s, "IndexError", "index"))
                 return out
@@ -867,9 +868,10 @@ class Builtins:
                 out = []
                 for s, ok in X.branch(st, z3.And(i.t >= -n, i.t < n)):
                     if ok:
-                        idx = z3.simplify(z3.If(i.t < 0, i.t + n, i.t))
-                        s.set_obj(a, s.obj(a).write(idx, v))
-                        out.append(Res(s, NONE))
+                        for s2, nonneg in X.branch(s, i.t >= 0):
+                            idx = z3.simplify(i.t if nonneg else i.t + n)
+                            s2.set_obj(a, s2.obj(a).write(idx, v))
+                            out.append(Res(s2, NONE))
                     else:
                         out.extend(X.raise_(s, "IndexError", "assign"))
                 return out
